@@ -3,7 +3,7 @@ CONSTANTS
   MaxArr = 3
   MaxTime = 2500
   EagerKeys = FALSE
-  SplitByFlush = FALSE
+  SplitByFlush = TRUE
   KeepSubs = FALSE
   FlushVaries = TRUE
   Kinds = {"P", "S1", "A1"}
